@@ -15,7 +15,7 @@ import (
 	"github.com/unravelin/null/v5"
 )
 
-func hs(s string) sx { return A("x" + hex.EncodeToString([]byte(s))) }
+func hs(s string) sx     { return A("x" + hex.EncodeToString([]byte(s))) }
 func (s sx) str() string { return string(s.bytes()) }
 
 var (
